@@ -316,7 +316,22 @@ void MEDDLY::saturation_set_mtrel<EOP, ATYPE>
     //
     // Split the relation
     //
-    if (1==VERSN) fillSplit(L, bp);
+    if (1==VERSN) {
+        //
+        // A recFire() result is saturated with respect to the whole
+        // relation below it, not only the relation node in its key.
+        // When the relation changes, cached firings for sub-relations
+        // the old and the new relation share are no longer valid.
+        // (top_at_or_below[L] keeps the previous root alive, so equal
+        // handles mean the same relation.)
+        //
+        if (top_at_or_below[L].getNode() != bp) {
+            fire_ct->markForDeletion();
+            fire_ct->getCT()->removeStales();
+            fire_ct->unmarkForDeletion();
+        }
+        fillSplit(L, bp);
+    }
 
 #ifdef TRACE
     out.indentation(0);
